@@ -79,10 +79,10 @@ def reachable(fnmap, roots, stop=None):
     return seen
 
 
-def run_ll2c(bc, jobs, workdir, tag):
+def run_ll2c(bc, jobs, workdir, tag, keep_all=()):
     jf = os.path.join(workdir, tag + ".jobs.json")
     with open(jf, "w") as f:
-        json.dump(jobs, f)
+        json.dump({"keep_all": list(keep_all), "jobs": jobs}, f)
     r = subprocess.run([LL2C, bc, "--jobs", jf], stdout=subprocess.PIPE, stderr=subprocess.PIPE, universal_newlines=True)
     if r.returncode != 0:
         raise Infra("ll2c failed: " + r.stderr[-2000:])
@@ -90,15 +90,13 @@ def run_ll2c(bc, jobs, workdir, tag):
 
 
 # ----------------------------------------------------------------------------------------------------------------
-def _limits():
-    resource.setrlimit(resource.RLIMIT_AS, (12 << 30, 12 << 30))
+_WRAP = ["bash", "-c", "ulimit -v 12000000; exec \"$@\"", "--"]
 
 
 def _run(cmd, timeout, cwd=None):
     t0 = time.time()
     try:
-        p = subprocess.run(cmd, stdout=subprocess.PIPE, stderr=subprocess.STDOUT, universal_newlines=True, timeout=timeout, cwd=cwd,
-                           preexec_fn=_limits)
+        p = subprocess.run(_WRAP + cmd, stdout=subprocess.PIPE, stderr=subprocess.STDOUT, universal_newlines=True, timeout=timeout, cwd=cwd)
         return p.returncode, p.stdout, time.time() - t0
     except subprocess.TimeoutExpired as e:
         return -9, (e.stdout or "") if isinstance(e.stdout, str) else "", time.time() - t0
@@ -188,9 +186,32 @@ def verify_one(task):
     return res
 
 
+def verify_chain(task):
+    """run the attempts of a task in order until one proves it or a concrete-mode counterexample is found"""
+    best = None
+    hist = []
+    for (mode, backend, tmo) in task["attempts"]:
+        t = dict(task)
+        t.update(mode=mode, backend=backend, timeout=tmo)
+        r = verify_one(t)
+        hist.append((mode, backend, r["status"], round(r.get("seconds", 0), 1)))
+        if r["status"] == "proved":
+            best = r
+            break
+        if best is None or r["status"] == "failed" or best["status"] in ("undecided", "infra"):
+            if not (best is not None and best["status"] == "failed" and best["mode"] == "concrete"):
+                best = r
+        if r["status"] == "failed" and r["mode"] == "concrete":
+            break
+        if r["status"] == "infra":
+            break
+    best["history"] = hist
+    return best
+
+
 def run_pool(tasks, workers=16):
     out = []
     with cf.ThreadPoolExecutor(max_workers=workers) as ex:
-        for r in ex.map(verify_one, tasks):
+        for r in ex.map(verify_chain, tasks):
             out.append(r)
     return out
